@@ -761,10 +761,14 @@ rv = .false.
 
                 # Promote cpp_if to interface scope if all are identical.
                 # Useful for fortran_generic.
-                iface_cpp_if = generics[0].cpp_if
+                # A method without its own cpp_if is under the cpp_if
+                # of its class (generic constructor interface).
+                def node_cpp_if(node):
+                    return node.cpp_if or getattr(node.parent, "cpp_if", None)
+                iface_cpp_if = node_cpp_if(generics[0])
                 if iface_cpp_if is not None:
                     for node in generics:
-                        if node.cpp_if != iface_cpp_if:
+                        if node_cpp_if(node) != iface_cpp_if:
                             iface_cpp_if = None
                             break
 
@@ -786,8 +790,8 @@ rv = .false.
                         iface.append("module procedure " + node.fmtdict.F_name_impl)
                 else:
                     for node in generics:
-                        if node.cpp_if:
-                            iface.append("#" + node.cpp_if)
+                        if node_cpp_if(node):
+                            iface.append("#" + node_cpp_if(node))
                             iface.append("module procedure " + node.fmtdict.F_name_impl)
                             iface.append("#endif")
                         else:
